@@ -373,9 +373,9 @@ func checkPage(page string, sl []slot, values []string) *kit.Violation {
 
 type snapshot struct {
 	Method, URL, Path, RawPath, RawQuery, Host, RequestURI, Proto string
-	Header                                                       http.Header
-	Body                                                         interface{}
-	ContentLength                                                int64
+	Header                                                        http.Header
+	Body                                                          interface{}
+	ContentLength                                                 int64
 }
 
 func snap(r *http.Request) snapshot {
